@@ -60,12 +60,12 @@ type c40snapshot struct {
 }
 
 type c40out struct {
-	Err      bool
-	ErrText  string
-	Snapshot c40snapshot // read
-	IDs      []int       // change: modified feature indices, sorted, de-duplicated
-	Listed   bool        // list
-	Malformed string     // the reply could not be interpreted
+	Err       bool
+	ErrText   string
+	Snapshot  c40snapshot // read
+	IDs       []int       // change: modified feature indices, sorted, de-duplicated
+	Listed    bool        // list
+	Malformed string      // the reply could not be interpreted
 }
 
 func (e c40edit) String() string {
